@@ -163,6 +163,13 @@ class C05(vlib.Check):
                         twins[j] = copy.copy(run.live[j])
                     except Exception:  # noqa: BLE001
                         pass
+            twins_f = {}
+            if op.get("fault") and o in READ_OPS:
+                for j in src_ids:
+                    try:
+                        twins_f[j] = copy.copy(run.live[j])
+                    except Exception:  # noqa: BLE001
+                        pass
             res = run.step(op)
             oracle_step(olive, op)
             where = "step %d (%s)" % (k, o)
@@ -170,6 +177,14 @@ class C05(vlib.Check):
                 if "err" not in res:
                     return {"key": "fault-accepted:%s:%s" % (o, op["fault"]), "what": "%s: %s with a %s fault was accepted" % (where, o, op["fault"]), "step": k}
                 for j in src_ids:
+                    if j in twins_f:
+                        try:
+                            same = bool(run.live[j] == twins_f[j])
+                        except Exception as e:  # noqa: BLE001
+                            return {"key": "db-eq-raises:" + type(e).__name__, "what": "%s: == raised %r" % (where, e)}
+                        if not same:
+                            return {"key": "refused-read-changes-equality:%s" % o,
+                                    "what": "%s: after the refused %s the database no longer equals its copy" % (where, o), "step": k}
                     if dump_db(run.live[j]) != before[j]:
                         return {"key": "refusal-not-atomic:%s:%s" % (o, op["fault"]),
                                 "what": "%s: database %s changed although the %s was refused" % (where, j, o), "step": k,
@@ -201,6 +216,20 @@ class C05(vlib.Check):
                         if not same:
                             return {"key": "read-changes-equality:%s" % o,
                                     "what": "%s: after read-only %s the database no longer equals its copy" % (where, o), "step": k}
+            # a derived database is an independent snapshot: it shares no matrix buffer with its source(s) (SciPy
+            # canonicalises CSR matrices in place - sort_indices, sum_duplicates - so a shared buffer is observable)
+            if o in ("subset", "as_type", "copy", "fold", "concat", "pickle", "savez") and op.get("out") in run.live:
+                import numpy as np
+                out = run.live[op["out"]]
+                for j in src_ids:
+                    if j == op.get("out") or run.live[j].array is None or out.array is None:
+                        continue
+                    for part in ("data", "indices", "indptr"):
+                        x, y = getattr(out.array, part), getattr(run.live[j].array, part)
+                        if x.size and y.size and np.shares_memory(x, y):
+                            return {"key": "derived-shares-buffer:%s:%s" % (o, part),
+                                    "what": "%s: the database derived by %s shares its matrix %s buffer with the source %s" % (where, o, part, j),
+                                    "step": k}
             # every live database still holds what was put in
             for j, odb in olive.items():
                 if j not in run.live:
